@@ -126,6 +126,17 @@ class SymbolicExpression(Generic[T], ABC):
         for child in self._children_:
             child._reset_cache_()
 
+    def _clear_result_caches_(self) -> None:
+        """
+        Drop the operator result caches of this expression and its descendants, they are incomplete when an
+        evaluation did not run to completion.
+        """
+        for node in self._all_nodes_:
+            for cache_name in ("_cache_", "right_cache", "left_cache"):
+                cache = node.__dict__.get(cache_name)
+                if isinstance(cache, IndexedCache):
+                    cache.clear()
+
     def _reset_only_my_cache_(self) -> None:
         """
         Reset only the cache of this symbolic expression.
@@ -472,9 +483,15 @@ class The(ResultQuantifier[T]):
     """
 
     def evaluate(self) -> TypingUnion[Iterable[T], T, UnificationDict]:
-        result = self._evaluate_()
-        result = self._process_result_(result)
-        self._reset_cache_()
+        completed = False
+        try:
+            result = self._evaluate_()
+            result = self._process_result_(result)
+            completed = True
+        finally:
+            self._reset_cache_()
+            if not completed:
+                self._clear_result_caches_()
         return result
 
     def _evaluate__(self, sources: Optional[Dict[int, HashedValue]] = None, yield_when_false: bool = False) -> Iterable[Dict[int, HashedValue]]:
@@ -517,11 +534,17 @@ class An(ResultQuantifier[T]):
         self._node_.wrap_subtree = True
 
     def evaluate(self) -> Iterable[TypingUnion[T, Dict[TypingUnion[T, SymbolicExpression[T]], T]]]:
-        with symbolic_mode(mode=None):
-            results = self._evaluate__()
-            assert not in_symbolic_mode()
-            yield from map(self._process_result_, results)
-        self._reset_cache_()
+        completed = False
+        try:
+            with symbolic_mode(mode=None):
+                results = self._evaluate__()
+                assert not in_symbolic_mode()
+                yield from map(self._process_result_, results)
+            completed = True
+        finally:
+            self._reset_cache_()
+            if not completed:
+                self._clear_result_caches_()
 
     def _evaluate__(self, sources: Optional[Dict[int, HashedValue]] = None, yield_when_false: bool = False) -> Iterable[T]:
         sources = sources or {}
